@@ -39,18 +39,27 @@ def _scenario(draw, tier):
             else:
                 ops.append(["restart"])
             continue
-        k = draw(st.sampled_from(["step", "advance", "advance", "restart", "restart", "limits"]))
+        k = draw(st.sampled_from(["step", "advance", "advance", "restart", "restart", "limits", "mass"]))
+        if k == "mass" and kind != "hmc":
+            k = "advance"
         if k == "step":
             ops.append(["step"])
         elif k == "advance":
             ops.append(["advance", draw(st.one_of(st.sampled_from([0, 1, 2, 3, 4, 5, 7, 9, 10, 11]), st.integers(0, 120)))])
+        elif k == "mass":
+            ops.append(["estimate_mass", draw(st.booleans())])
         elif k == "restart":
             ops.append(["restart"])
             if draw(st.integers(0, 4)) == 0:
                 ops.append(["restart"])
         elif kind in ("gibbs", "metropolis"):
             i = draw(st.integers(0, cfg["d"] - 1))
-            which = draw(st.sampled_from(["bounds", "bounds", "nonneg", "remove", "bad"]))
+            which = draw(st.sampled_from(["bounds", "bounds", "nonneg", "remove", "bad", "both", "both"]))
+            if which == "both":
+                # both limits on the same parameter (in either order)
+                two = [["set_bounds", i, draw(st.sampled_from([0.5, 2.0, 10.0])), draw(st.sampled_from([0.3, 0.5, 0.9]))], ["set_nonneg", i, True]]
+                ops.extend(two if draw(st.booleans()) else two[::-1])
+                continue
             if which == "bounds":
                 ops.append(["set_bounds", i, draw(st.sampled_from([0.5, 2.0, 10.0])), draw(st.sampled_from([0.3, 0.5, 0.9]))])
             elif which == "bad":
@@ -274,6 +283,12 @@ def apply_one(h, op):
             lib_call("set_non_negative", h.chain.set_non_negative, op[1], True)
     elif name == "remove_bounds":
         lib_call("set_boundaries(remove)", h.chain.set_boundaries, op[1], (0.0, 1.0), remove=True)
+    elif name == "estimate_mass":
+        # public re-tuning of the HMC mass from the samples so far (needs enough distinct samples)
+        S = np.asarray(h.chain.get_sample(burn=1))
+        if S.shape[0] >= 2 * h.d + 4 and np.all(S.var(axis=0) > 0) and (h.d == 1 or op[1] or
+                                                                    np.linalg.cond(np.cov(S.T)) < 1e8):
+            lib_call("estimate_mass", h.chain.estimate_mass, burn=1, thin=1, diagonal=bool(op[1]))
     elif name == "bad_bounds":
         cur = float(np.asarray(h.chain.get_parameter(op[1], burn=0))[-1])
         lib_call("set_boundaries(rejected)", h.chain.set_boundaries, op[1], (cur + op[2], cur - op[2]))
